@@ -30,6 +30,8 @@ func c18Jobs(tier string, seed int64) []string {
 		"xml:text:1", "xml:val:1", "xml:key:1", "xml:ekey:1", "xml:nested:1", "xml:text:0", "xml:text:2",
 		"html:text:1", "html:key:1", "html:val:1", "html:style:1", "html:link:1", "html:file:1", "html:class:1", "html:table:1",
 		"html:cut:0", "html:cut:1", "html:cut:3",
+		// containers behind Link/Format wrappers keep their structure; style closures: results are escaped, failures are errors
+		"xml:wraplink:1", "xml:wrapformat:1", "xml:wrapmap:1", "html:styleclosure:1", "html:stylefail:1",
 		// symbolic runes behind a concrete context: sequences that are markup only as a whole (]]> &#..; <!-- CR LF)
 		"xml:text:1:]]", "xml:val:1:]]", "html:text:1:]]", "html:val:1:]]", "xml:text:1:&#", "html:text:1:&#3", "xml:text:1:<!-", "xml:text:1:a\r", "xml:val:1:a\r", "html:style:1:]]",
 	}
@@ -137,6 +139,12 @@ func c18XML(shape string, n int) {
 		v = value.NewMap(value.RealMap{s: value.NewList(value.Int(1))})
 	case "nested":
 		v = value.NewList(value.NewMap(value.RealMap{"k": value.NewList(value.String(s)), "j": value.String(s)}))
+	case "wraplink":
+		v = value.NewMap(value.RealMap{"ka": export.Link{Value: value.NewList(value.String(s), value.String("x-y-z")), Link: "t"}, "kb": value.String("B-B")})
+	case "wrapformat":
+		v = value.NewMap(value.RealMap{"ka": export.Format{Value: value.NewList(value.String(s), value.String("x-y-z")), Format: value.String("c")}, "kb": value.String("B-B")})
+	case "wrapmap":
+		v = value.NewList(export.Link{Value: value.NewMap(value.RealMap{"ka": export.Link{Value: value.NewMap(value.RealMap{"kq": value.NewList(value.String(s))}), Link: "t"}}), Link: "u"})
 	}
 	exp := export.XML()
 	var out []byte
@@ -206,6 +214,17 @@ func c18XML(shape string, n int) {
 		countAttr(doc, "key", rs, &c)
 		sym.Assert(doc.name == "map" && len(doc.kids) == 1, "map-structure")
 		sym.Assert(c == 1, "key-attribute-decodes-to-the-string")
+	case "wraplink", "wrapformat", "wrapmap":
+		// the wrapped container is still a container: one list element holding the string as text
+		var ct int64
+		countText(doc, rs, &ct)
+		sym.Assert(countElems(doc, "list") >= 1, "wrapped-list-keeps-its-structure")
+		sym.Assert(ct == 1, "wrapped-list-item-is-character-data")
+		var ca int64
+		for _, an := range []string{"ka", "kb", "kq", "key"} {
+			countAttr(doc, an, rs, &ca)
+		}
+		sym.Assert(ca == 0, "wrapped-list-is-no-attribute-value")
 	case "nested":
 		var ct, ca int64
 		countText(doc, rs, &ct)
@@ -262,6 +281,39 @@ func c18HTML(shape string, n int) {
 		notURL()
 		v = value.NewList(value.NewMap(value.RealMap{"a": value.String(s), "b": value.String("q-q-q")}), value.NewMap(value.RealMap{"a": value.String("y-y-y"), "b": value.String(s)}))
 		wantText = true
+	case "styleclosure":
+		// a one-argument style closure produces the value that is shown: its result is content like any other
+		notURL()
+		cl := eval(mustGen(value.New(), `x->x+"-q"`)).v
+		v = export.Link{Value: export.Format{Value: value.String(s), Format: cl}, Link: "t-t"}
+		rs = append(append([]rune{}, rs...), []rune("-q")...)
+		s = string(rs)
+		wantText = true
+	case "stylefail":
+		cl := eval(mustGen(value.New(), `x->throw("style fails")`)).v
+		cl2 := eval(mustGen(value.New(), `x->x.nosuch()`)).v
+		for ti, tree := range []value.Value{
+			// the places where a one-argument closure is applied as style (inside table cells a closure
+			// is not a style and is not called)
+			export.Format{Value: value.String(s), Format: cl},
+			export.Link{Value: export.Format{Value: value.String(s), Format: cl2}, Link: "t"},
+			export.Format{Value: value.NewList(value.String(s)), Format: cl},
+			value.NewList(export.Format{Value: value.NewList(value.String(s)), Format: cl2}),
+			export.Link{Value: export.Link{Value: export.Format{Value: value.String(s), Format: cl}, Link: "t"}, Link: "u"},
+		} {
+			var ferr error
+			func() {
+				defer func() {
+					if rec := recover(); rec != nil {
+						ferr = errPanic
+						sym.Assert(false, "ToHtml-panics")
+					}
+				}()
+				_, _, ferr = export.ToHtml(tree, 10, nil, true)
+			}()
+			sym.Assert(ferr != nil, "failing-style-closure-is-reported:"+strconv.Itoa(ti))
+		}
+		return
 	case "cut":
 		// n is the list length here; maxListSize symbolic
 		var items []value.Value
